@@ -281,7 +281,7 @@ def run(tier):
     kf = run.known.active("KF-C18-1")
     pregex = common.import_pregex()
     import pregex.meta.essentials as me
-    run.functions = common.src_fingerprint([me.IPv4.__init__, me.IPv6.__init__, me.Numeral.__init__])
+    run.functions = common.src_fingerprint(common.resolve([(me.IPv4, "__init__"), (me.IPv6, "__init__"), (me.Numeral, "__init__")]))
     tasks = [("task_refcheck", ("v4", 60 if tier == "quick" else 200)),
              ("task_refcheck", ("v6", 60 if tier == "quick" else 200)),
              ("task_reglan", ("v4", False)), ("task_reglan", ("v6", kf))]
